@@ -13,28 +13,58 @@ NEUTRAL_CALLS = {"len", "isinstance", "str", "type", "repr", "print", "bool"}
 def head_aliases(node: ast.AST, var_src: str) -> Set[str]:
     """local names bound to <var>[0] (possibly lower-cased / stripped), e.g. `node_head = node[0]` or `head, rest = node[0], node[1:]`"""
     out: Set[str] = set()
-    for name, v, _st in C.simple_bindings(node):
+    binds = list(C.simple_bindings(node))
+    nodes = node_aliases(binds, var_src)
+    for name, v, _st in binds:
         while isinstance(v, ast.Call) and isinstance(v.func, ast.Attribute) and v.func.attr in ("lower", "strip") and not v.args:
             v = v.func.value
-        if isinstance(v, ast.Subscript) and isinstance(v.slice, ast.Constant) and v.slice.value == 0 and ast.unparse(v.value) == var_src:
+        if isinstance(v, ast.Subscript) and isinstance(v.slice, ast.Constant) and v.slice.value == 0 and ast.unparse(v.value) in nodes:
             out.add(name)
+    # copies of a head alias
+    grew = True
+    while grew:
+        grew = False
+        for name, v, _st in binds:
+            if isinstance(v, ast.Name) and v.id in out and name not in out:
+                out.add(name)
+                grew = True
+    _NODE_ALIASES[(id(node), var_src)] = nodes
     return out
 
 
-def is_head_expr(s: ast.AST, var_src: str, aliases: Set[str]) -> bool:
-    if isinstance(s, ast.Subscript) and isinstance(s.slice, ast.Constant) and s.slice.value == 0 and ast.unparse(s.value) == var_src:
+_NODE_ALIASES: dict = {}
+
+
+def node_aliases(binds, var_src: str) -> Set[str]:
+    """the node variable and the plain copies of it (parameter bindings of helpers analysed in place)"""
+    nodes = {var_src}
+    grew = True
+    while grew:
+        grew = False
+        for name, v, _st in binds:
+            if isinstance(v, ast.Name) and v.id in nodes and name not in nodes:
+                nodes.add(name)
+                grew = True
+    return nodes
+
+
+def is_head_expr(s: ast.AST, var_src: str, aliases: Set[str], nodes: Optional[Set[str]] = None) -> bool:
+    if isinstance(s, ast.Subscript) and isinstance(s.slice, ast.Constant) and s.slice.value == 0 and \
+            (ast.unparse(s.value) == var_src or (nodes is not None and ast.unparse(s.value) in nodes)):
         return True
     return isinstance(s, ast.Name) and s.id in aliases
 
 
 def head_tests(node: ast.AST, var_src: str, scope: Optional[ast.AST] = None) -> List[ast.AST]:
     """if statements (and conditional expressions) whose test mentions <var>[0] or a local alias of it"""
-    aliases = head_aliases(scope if scope is not None else node, var_src)
+    sc = scope if scope is not None else node
+    aliases = head_aliases(sc, var_src)
+    nodes = _NODE_ALIASES.get((id(sc), var_src))
     out = []
     for n in ast.walk(node):
         if isinstance(n, (ast.If, ast.IfExp)):
             for s in ast.walk(n.test):
-                if is_head_expr(s, var_src, aliases):
+                if is_head_expr(s, var_src, aliases, nodes):
                     out.append(n)
                     break
     return out
@@ -136,9 +166,32 @@ def silent_drop_paths(body: List[ast.stmt], seed: Set[str]) -> Tuple[int, List[D
     bad: List[DropPath] = []
     npaths = 0
 
-    def dfs(n, path, consumed, decisions):
+    def tag_update(stmt, env):
+        """definition tags put next to function-valued locals by the flattener (`h__tag = 2`, copies `x__tag = h__tag`): a path
+        knows which definition it passed, so `if h__tag == 1:` is decided on it"""
+        if isinstance(stmt, ast.Assign) and len(stmt.targets) == 1 and isinstance(stmt.targets[0], ast.Name) and stmt.targets[0].id.endswith("__tag"):
+            env = dict(env)
+            v = stmt.value
+            if isinstance(v, ast.Constant):
+                env[stmt.targets[0].id] = v.value
+            elif isinstance(v, ast.Name) and v.id in env:
+                env[stmt.targets[0].id] = env[v.id]
+            else:
+                env.pop(stmt.targets[0].id, None)
+        return env
+
+    def tag_decides(test, env):
+        if isinstance(test, ast.Compare) and len(test.ops) == 1 and isinstance(test.ops[0], (ast.Eq, ast.NotEq)) and isinstance(test.left, ast.Name) \
+                and test.left.id in env and isinstance(test.comparators[0], ast.Constant):
+            same = env[test.left.id] == test.comparators[0].value
+            return same if isinstance(test.ops[0], ast.Eq) else not same
+        return None
+
+    def dfs(n, path, consumed, decisions, env=None):
         nonlocal npaths
+        env = env or {}
         kind, stmt = g.kind[n], g.stmt[n]
+        env = tag_update(stmt, env)
         if n == g.exit:
             npaths += 1
             if not consumed:
@@ -181,8 +234,11 @@ def silent_drop_paths(body: List[ast.stmt], seed: Set[str]) -> Tuple[int, List[D
                 continue
             d = decisions
             if kind == "if":
+                decided = tag_decides(stmt.test, env)
+                if decided is not None and l != decided:
+                    continue
                 d = decisions + [f"{unparse(stmt.test, 50)} -> {l}"]
-            dfs(m, path + [n], c, d)
+            dfs(m, path + [n], c, d, env)
 
     dfs(g.entry, [], False, [])
     return npaths, bad
